@@ -150,7 +150,7 @@ def recompute(case):
         e = explain_yin_parse(msgs, yin)
         if e:
             out.add(e)
-    if law == "yin_relex" and case.get("relex") in ("F50", "F51", "F54", "F60", "F61"):
+    if law == "yin_relex" and case.get("relex") in ("F50", "F51", "F54", "F60", "F61", "F64"):
         out.add(case["relex"])
     return out
 
@@ -350,6 +350,9 @@ def relex_finding(t1, t3, dd):
         return None
     path = dd[0]
     n1 = node_at(t1, path)
+    if dd[1] == "arg" and dd[2][1] is not None and dd[3][1] is not None and b"\r" in dd[2][1] and \
+            re.sub(rb"\n +", b"\n", dd[2][1].replace(b"\r", b"")) == re.sub(rb"\n +", b"\n", dd[3][1].replace(b"\r", b"")):
+        return "F64"            # the CR went through YIN raw and the XML reader folded CR LF into LF
     if dd[1] == "arg" and n1 is not None and n1[2] & yangstrcomp.LYS_SINGLEQUOTED and dd[3][1] is not None and b"\n" in dd[3][1] and \
             re.sub(rb"\n +", b"\n", dd[2][1] or b"") == re.sub(rb"\n +", b"\n", dd[3][1]):
         return "F51"            # the first YANG print, single-quoted, already carries inserted indentation
